@@ -320,7 +320,8 @@ def check(run):
             c0, _ = t.connect("cli0.example.net")
             for f in range(rng2.randrange(1, 4)):       # up to 3 consecutive faults
                 kind = rng2.choice(["close_after_request", "reset_mid_frame", "handler_none", "handler_raise", "close_with_queued",
-                                    "half_frame_then_close", "dpr_then_close", "write_error", "write_error"])
+                                    "half_frame_then_close", "dpr_then_close", "write_error", "write_error",
+                                    "two_broken_at_once", "handshake_stalled"])
                 hist.append(kind)
                 hbh += 1
                 if kind == "close_after_request":
@@ -342,6 +343,52 @@ def check(run):
                         run.violation("write-error-closes", {"scenario": f"probe seed {seed}", "faults": list(hist)},
                                       "connection still open", what="a hard socket write error does not close the connection")
                         t.remotes[c0].close()
+                        t.sim.run()
+                elif kind == "two_broken_at_once":
+                    # two connections meet bytes that cannot be a frame in the SAME round of the I/O loop; each of them
+                    # closes itself and asks the node for attention: both wake-ups have to be served
+                    c1, _ = t.connect("cli1.example.net")
+                    for c in (c0, c1):
+                        t.remotes[c].feed(bytes(40))
+                    t.sim.run()
+                    t.sim.advance(2)
+                    left = [t.host[c] for c in (c0, c1) if not t.remotes[c].closed_by_node]
+                    if left or len(t.node.connections) != 0:
+                        run.violation("fault-closes", {"scenario": f"probe seed {seed}", "faults": list(hist)},
+                                      {"sockets_still_open": left, "connections": len(t.node.connections)},
+                                      "both connections closed and forgotten",
+                                      what="of two connections that broke in the same I/O round one is never closed")
+                        for c in (c0, c1):
+                            t.remotes[c].close()
+                        t.sim.run()
+                    # the second peer comes back and is served
+                    c1b, cea1 = t.connect("cli1.example.net")
+                    hbh += 1
+                    t.obs()
+                    t.request(c1b, hbh, "answer")
+                    t.sim.advance(1)
+                    o1 = t.obs()
+                    if cea1 != [(257, 2001)] or (hbh, 2001) not in o1["sends"].get(c1b, []):
+                        run.violation("served-after-faults", {"scenario": f"probe seed {seed}", "limit": limit, "faults": list(hist)},
+                                      {"cea": cea1, "answers": o1["sends"].get(c1b, [])}, "CEA 2001 and the request answered 2001",
+                                      what="a peer whose connection broke together with another one is not served when it returns")
+                    t.remotes[c1b].close()
+                    t.sim.run()
+                elif kind == "handshake_stalled":
+                    # a newcomer sends half a CER and falls silent: the CER timer closes it, its workers must end
+                    t.sim.script_random([1000 + 97 * len(t.remotes)])
+                    rs = t.sim.connect_in()
+                    t.sim.run()
+                    t.remotes.append(rs)
+                    t.host[len(t.remotes) - 1] = "cli1.example.net"
+                    fr = NS.build_message(dict(kind="cer", host="cli1.example.net", hbh=1, e2e=1))
+                    rs.feed(fr[:rng2.randrange(1, len(fr))])
+                    t.sim.run()
+                    t.sim.advance(8)
+                    if not rs.closed_by_node:
+                        run.violation("fault-closes", {"scenario": f"probe seed {seed}", "faults": list(hist)}, "still open after 8 s",
+                                      what="a handshake that stalled mid-frame is not closed by the CER timer")
+                        rs.close()
                         t.sim.run()
                 elif kind == "handler_none":
                     t.request(c0, hbh, "none")
@@ -367,7 +414,7 @@ def check(run):
                     t.remotes[c0].close()
                     t.sim.run()
                 if t.remotes[c0].closed_by_node or kind in ("close_after_request", "reset_mid_frame", "close_with_queued",
-                                                            "half_frame_then_close", "dpr_then_close"):
+                                                            "half_frame_then_close", "dpr_then_close", "two_broken_at_once"):
                     t.sim.advance(1)
                     c0, _ = t.connect("cli0.example.net")
             t.sim.advance(6)
@@ -407,6 +454,14 @@ def check(run):
                               what="after the faults the requests of a new peer are not all delivered and answered 2001")
             if o["deaths"] or not (o["recv_alive"] and o["resp_alive"] and o["io_alive"]):
                 run.violation("thread-death", case, o["deaths"], what="a worker thread terminated abnormally")
+            # no connection worker outlives its connection: one reader and one writer per live connection
+            roles = t.sim.live_threads_by_role()
+            live = len(t.node.connections)
+            workers = {k: roles.get(k, 0) for k in ("work_read_queue", "work_write_queue")}
+            if any(v != live for v in workers.values()):
+                run.violation("workers-released", case, {"live_connections": live, "worker_threads": workers},
+                              "one reader and one writer per live connection",
+                              what="connection worker threads of closed connections are still running (capacity consumed for good)")
         finally:
             t.sim.shutdown()
     return run.finish()
